@@ -26,14 +26,20 @@ def sh(cmd, cwd=None, env=None, timeout=3000):
 
 
 def main():
-    mdir, letter, prop = sys.argv[1], sys.argv[2], sys.argv[3]
-    others = sys.argv[4:]
-    diff = os.path.join(mdir, '%s.diff' % letter)
-    demo = os.path.join(mdir, 'demo_%s.py' % letter)
-    out = os.path.join(VERIF, 'seeded', '%s_%s' % (prop, letter))
-    os.makedirs(out, exist_ok=True)
-    shutil.copy(diff, os.path.join(out, 'patch.diff'))
-    shutil.copy(demo, os.path.join(out, 'demo.py'))
+    if sys.argv[1] == '--stored':
+        # re-evaluate a seed kept under /verif/seeded/<prop>_<letter>/
+        prop, letter = sys.argv[2].split('_')
+        others = sys.argv[3:]
+        mdir = out = os.path.join(VERIF, 'seeded', sys.argv[2])
+    else:
+        mdir, letter, prop = sys.argv[1], sys.argv[2], sys.argv[3]
+        others = sys.argv[4:]
+        diff = os.path.join(mdir, '%s.diff' % letter)
+        demo = os.path.join(mdir, 'demo_%s.py' % letter)
+        out = os.path.join(VERIF, 'seeded', '%s_%s' % (prop, letter))
+        os.makedirs(out, exist_ok=True)
+        shutil.copy(diff, os.path.join(out, 'patch.diff'))
+        shutil.copy(demo, os.path.join(out, 'demo.py'))
     meta = {'property': prop, 'variant': letter, 'source': 'independent sub-agent given only the property text',
             'ran': []}
     try:
@@ -44,7 +50,7 @@ def main():
     except Exception:
         pass
     notes = os.path.join(mdir, 'notes.md')
-    if os.path.exists(notes):
+    if os.path.exists(notes) and mdir != out:
         shutil.copy(notes, os.path.join(out, 'notes.md'))
     wt = '/tmp/ev_%s_%s' % (prop, letter)
     sh('git -C /repo worktree remove --force %s' % wt)
@@ -63,14 +69,42 @@ def main():
     meta['tests_with_patch'] = {'failed': failed, 'tail': o_t[-400:]}
     rc_mut, o_mut = sh(demo_cmd, env=env)
     meta['demo_on_patched_tree'] = {'rc': rc_mut, 'tail': o_mut[-500:]}
-    sh('git -C /repo worktree remove --force %s' % wt)
+    iso = os.environ.get('EVAL_ISOLATED')
+    if not iso:
+        sh('git -C /repo worktree remove --force %s' % wt)
     # restore the original path in the stored demo
     open(os.path.join(out, 'demo.py'), 'w').write(txt.replace(wt, '/tmp/wt_%s' % prop))
     valid = (rc_clean == 0 and rc_ap == 0 and rc_mut != 0 and
              all('permission_denied' in f for f in failed))
     meta['valid_seed'] = valid
     # ---- run the checks against it
-    if valid:
+    if valid and iso:
+        # isolated mode: a private copy of /verif checks the patched scratch worktree (VERIF_REPO), so /repo and
+        # /verif stay untouched and several evaluations can run side by side
+        vcopy = '/root/scratch/veval_%s_%s' % (prop, letter)
+        sh('mkdir -p /root/scratch && rm -rf %s && rsync -a --exclude .git --exclude _work --exclude replays '
+           '--exclude seeded %s/ %s/' % (vcopy, VERIF, vcopy))
+        env2 = dict(os.environ, VERIF_REPO=wt)
+        for p in [prop] + others:
+            t0 = time.time()
+            rc, o = sh('./check %s --tier quick' % p, cwd=vcopy, env=env2)
+            viol = [l for l in o.splitlines() if l.startswith('VIOLATION')]
+            entry = {'check': p, 'rc': rc, 'violations': [v.replace(vcopy, VERIF) for v in viol[:5]],
+                     'wall_s': round(time.time() - t0, 1), 'isolated': True}
+            for v in viol[:1]:
+                m = re.search(r'replay=(\S+)', v)
+                if m and os.path.exists(m.group(1)):
+                    try:
+                        r = json.load(open(m.group(1)))
+                        entry['first_replay'] = {'key': r.get('key'), 'kind': r.get('kind'),
+                                                 'description': str(r.get('description'))[:400]}
+                    except Exception:
+                        pass
+            meta['ran'].append(entry)
+        sh('rm -rf %s' % vcopy)
+    if iso:
+        sh('git -C /repo worktree remove --force %s' % wt)
+    if valid and not iso:
         rc, o = sh('git -C /repo status --short')
         if o.strip():
             print('refusing: /repo is not clean:\n' + o)
